@@ -788,6 +788,234 @@ def run_hist(client, base, desc, jobs):
                    "aood": len(aood), "history": desc.history, "clientx": cx}
 
 
+# --------------------------------------------------------------------------------------------------
+# stream `cancel_histories` (added after seeded change C10-6): a LONG-LIVED client (one BuildSystem for the whole history, as
+# BuildSystemFrontend keeps it) with a CANCELLING policy — "keep going, give up at the N-th failed command", or a cancel when a given
+# command starts / has finished —, 2 lanes, descriptions in which a command has one input that fails FAST and one that is SLOW: the command
+# is told FailedInput / MissingInput and the build is cancelled before it executes.  Then the cause is removed and the same client builds
+# again, 1-3 times.  Only schedule-independent facts are judged (the timing decides what a changed tree shows, never what the unchanged one does).
+# --------------------------------------------------------------------------------------------------
+class CancelDesc:
+    def __init__(self, rng, idx, fixed=None):
+        self.idx = idx
+        if fixed is not None:
+            self.cmds, self.phases = fixed["cmds"], fixed["phases"]
+            self.byname = {c["name"]: c for c in self.cmds}
+            return
+        shape = idx % 4
+        C = lambda name, ins, kind: {"name": name, "inputs": ins, "kind": kind, "out": "o/%s.a" % name, "src": "src/%s.src" % name}
+        if shape == 0:      # the demonstration of seeded/C10-6
+            self.cmds = [C("A", [], "fast"), C("B", [], "slow"), C("C", ["A", "B"], "use"), C("D", ["C"], "use")]
+        elif shape == 1:    # chains
+            self.cmds = [C("A", [], "fast"), C("M", ["A"], "use"), C("B", [], "slow"), C("C", ["M", "B"], "use"), C("D", ["C"], "use"), C("E", ["D"], "use")]
+        elif shape == 2:    # diamond
+            self.cmds = [C("A", [], "fast"), C("B", [], "slow"), C("C1", ["A", "B"], "use"), C("C2", ["A"], "use"), C("D", ["C1", "C2"], "use")]
+        else:
+            self.cmds = [C("A", [], "fast"), C("A2", [], "fast"), C("B", [], "slow")] + ([C("B2", [], "slow")] if rng.chance(1, 2) else [])
+            for i in range(2 + rng.below(3)):
+                prev = [c["name"] for c in self.cmds]
+                ins = [rng.choice([n for n in prev if n.startswith("A") or n.startswith("U")]), rng.choice([n for n in prev if n.startswith("B")])]
+                x = rng.choice(prev)
+                if x not in ins and rng.chance(1, 2):
+                    ins.append(x)
+                self.cmds.append(C("U%d" % i, ins, "use"))
+        self.byname = {c["name"]: c for c in self.cmds}
+        fast = [c["name"] for c in self.cmds if c["kind"] == "fast"]
+        slow = [c["name"] for c in self.cmds if c["kind"] == "slow"]
+        use = [c["name"] for c in self.cmds if c["kind"] == "use"]
+        self.phases = []
+        for ph in range(1 + rng.below(2)):
+            r = rng.below(8)
+            arm = {rng.choice(fast): "exit"}
+            if r < 4:       # a slow producer fails as well: the policy gives up at the 2nd failure
+                arm[rng.choice(slow)] = "exit"
+                policy = "k2"
+            elif r == 4:    # user cancel when the slow producer has finished (it succeeds)
+                policy = "f" + rng.choice(slow)
+            elif r == 5:    # the consumer's own source is missing (MissingInput) and a slow producer fails: cancel when it has finished
+                s = rng.choice(slow)
+                arm = {rng.choice(use): "missing-input", s: "exit"}
+                policy = "f" + s
+            elif r == 6:
+                arm[rng.choice(fast)] = "missing-input"
+                arm[rng.choice(slow)] = "exit"
+                policy = "k2"
+            else:
+                arm[rng.choice(slow)] = "exit"
+                policy = "k3" if len(arm) < 3 else "k2"      # never reached: plain keep-going control
+            self.phases.append({"arm": arm, "policy": policy, "twice": rng.chance(1, 3), "repaired_builds": 1 + rng.below(3)})
+
+    def down(self, roots):
+        bad = set()
+        for c in self.cmds:          # topological order
+            if any(i in bad or i in roots for i in c["inputs"]):
+                bad.add(c["name"])
+        return bad
+
+    def manifest(self):
+        L = ["client:", "  name: basic", "  version: 0", "", "targets:", '  "": ["<all>"]', "", "commands:"]
+        for c in self.cmds:
+            nm = c["name"]
+            ins = [self.byname[i]["out"] for i in c["inputs"]] + [c["src"]]
+            body = "echo %s >> log; " % nm
+            if c["kind"] == "slow":
+                body += "if [ -e ctl/slow ]; then n=0; while [ ! -e ctl/gate ] && [ $n -lt 100 ]; do sleep 0.01; n=$((n+1)); done; sleep 0.25; fi; "
+            body += "if [ -e ctl/%s.fail ]; then touch ctl/gate; exit 3; fi; " % nm
+            body += "{ echo '%s('; cat %s || exit 8; echo ')'; } > %s || exit 9; true" % (nm, " ".join(ins), c["out"])
+            L += ['  "%s":' % nm, "    tool: shell", "    inputs: [%s]" % ", ".join('"%s"' % i for i in ins), '    outputs: ["%s"]' % c["out"],
+                  '    args: ["/bin/sh", "-c", "%s"]' % body]
+        L += ['  "<all>":', "    tool: phony", "    inputs: [%s]" % ", ".join('"%s"' % c["out"] for c in self.cmds), '    outputs: ["<all>"]']
+        return "\n".join(L) + "\n"
+
+    def to_json(self):
+        return {"cancel": True, "idx": self.idx, "cmds": self.cmds, "phases": self.phases}
+
+
+class PolicySession(InProc):
+    """keep-going client with ONE BuildSystem per history and a per-build cancelling policy"""
+    name = "session+policy"
+
+    def build(self, d, jobs, policy="-", verb="session"):
+        try:
+            os.unlink(os.path.join(d, "log"))
+        except FileNotFoundError:
+            pass
+        self.p.stdin.write(("%s %s %d %s\n" % (verb, d, jobs, policy)).encode())
+        self.p.stdin.flush()
+        line = self.p.stdout.readline().decode().strip()
+        m = re.fullmatch(r"ok=(\d) failures=(\d+) errors=(\d+) cancelled=(\d+)", line)
+        if not m:
+            raise RuntimeError("harness c10build: %r" % line)
+        lp = os.path.join(d, "log")
+        log = open(lp).read().split() if os.path.exists(lp) else []
+        # what BuildSystemFrontend::build returns: `!cancelled && no failed command`
+        failed = not (m.group(1) == "1" and m.group(2) == "0" and m.group(3) == "0" and m.group(4) == "0")
+        return failed, log, line
+
+    def drop(self, d):
+        self.p.stdin.write(("drop %s\n" % d).encode())
+        self.p.stdin.flush()
+        self.p.stdout.readline()
+
+
+def run_cancel_hist(client, base, desc):
+    fails = []
+    d = os.path.join(base, "k%d" % desc.idx)
+    clean = d + "-clean"
+    st = {"label": "", "build": 0}
+    stats = {"builds": 0, "failing_builds": 0, "cancelled_builds": 0, "repaired_builds": 0, "told_then_cancelled_candidates": 0, "policies": {}}
+    names = [c["name"] for c in desc.cmds]
+
+    def setup(x):
+        shutil.rmtree(x, ignore_errors=True)
+        for sub in ("ctl", "src", "o"):
+            os.makedirs(os.path.join(x, sub))
+        open(os.path.join(x, "build.llbuild"), "w").write(desc.manifest())
+        for c in desc.cmds:
+            open(os.path.join(x, c["src"]), "w").write("src of %s\n" % c["name"])
+    setup(d)
+
+    def bad(what, **kw):
+        f = {"what": "[long-lived client with a cancelling policy, 2 lanes, build %d: %s] %s" % (st["build"], st["label"], what), "route": "e2e",
+             "stream": "cancel-history", "client": client.name, "jobs": 2, "input": {"desc": desc.to_json(), "jobs": 2, "client": client.name}}
+        f.update(kw)
+        fails.append(f)
+
+    def build(label, policy="-"):
+        st["label"], st["build"] = label, st["build"] + 1
+        stats["builds"] += 1
+        failed, log, out = client.build(d, 2, policy)
+        for nm in sorted(set(log)):
+            if log.count(nm) > 1:
+                bad("%s executed %d times in one build" % (nm, log.count(nm)), clause="rerun", command=nm, mode="twice")
+        return failed, log, out
+    must = set(names)        # commands that MUST execute in the next build in which nothing fails (never succeeded / failed / downstream of a failure)
+    edits = 0
+    for pi, ph in enumerate(desc.phases):
+        arm, policy = ph["arm"], ph["policy"]
+        stats["policies"][policy[0]] = stats["policies"].get(policy[0], 0) + 1
+        for nm, mode in sorted(arm.items()):
+            c = desc.byname[nm]
+            if mode == "missing-input":
+                os.unlink(os.path.join(d, c["src"]))
+            else:
+                edits += 1
+                open(os.path.join(d, c["src"]), "a").write("edited %d, longer\n" % edits)      # it has to run
+                open(os.path.join(d, "ctl", nm + ".fail"), "w").write("x")
+        open(os.path.join(d, "ctl", "slow"), "w").write("x")
+        F = set(arm)
+        down = desc.down(F)
+        must |= F | down
+        for rep in range(2 if ph["twice"] else 1):
+            try:
+                os.unlink(os.path.join(d, "ctl", "gate"))
+            except FileNotFoundError:
+                pass
+            failed, log, out = build("phase %d%s, failing %s, policy %s" % (pi + 1, " again" if rep else "", json.dumps(arm, sort_keys=True), policy), policy)
+            stats["failing_builds"] += 1
+            stats["cancelled_builds"] += 1 if "cancelled=0" not in out else 0
+            if not failed:
+                bad("the build reports success (%s) although commands %s fail" % (out, sorted(F)), clause="build-reports-failure", modes=sorted(arm.values()), only_killed=False)
+            for nm in sorted(set(log)):
+                if nm in down:
+                    bad("%s executed although it consumes (transitively) an output of a failing command %s" % (nm, sorted(F)),
+                        clause="no-downstream-execution", command=nm)
+                if arm.get(nm) == "missing-input":
+                    bad("%s executed although its declared input is missing" % nm, clause="no-downstream-execution", command=nm)
+            must -= set(log) - F - down        # ran without failing: recorded, or dropped by the cancellation and run again — both are fine
+            if "cancelled=0" not in out and any(any(i in F or i in down for i in desc.byname[x]["inputs"]) and
+                                                any(desc.byname[i]["kind"] == "slow" for i in desc.byname[x]["inputs"]) for x in names):
+                stats["told_then_cancelled_candidates"] += 1
+        # the cause is removed; the same client builds again
+        for nm, mode in sorted(arm.items()):
+            c = desc.byname[nm]
+            if mode == "missing-input":
+                open(os.path.join(d, c["src"]), "w").write("src of %s, recreated\n" % nm)
+            else:
+                os.unlink(os.path.join(d, "ctl", nm + ".fail"))
+        for x in ("slow", "gate"):
+            try:
+                os.unlink(os.path.join(d, "ctl", x))
+            except FileNotFoundError:
+                pass
+        for rb in range(ph["repaired_builds"]):
+            failed, log, out = build("phase %d, build %d after the repair (nothing fails any more)" % (pi + 1, rb + 1))
+            stats["repaired_builds"] += 1
+            if rb == 0:
+                if failed:
+                    bad("the build after the repair reports failure (%s) although nothing fails" % out, clause="converges", repaired=True)
+                missing = sorted(c["out"] for c in desc.cmds if not os.path.isfile(os.path.join(d, c["out"])))
+                notrun = sorted(must - set(log))
+                if notrun:
+                    bad("the build reports %s (%s) but command(s) %s — failed, cancelled or skipped for a failure that no longer exists — were NOT executed%s" % (
+                        "failure" if failed else "success", out, notrun, "; outputs %s do not exist" % missing if missing else ""),
+                        clause="rerun", command=notrun[0], mode="stale-skip-after-cancel", policy=policy[0], silent=not failed)
+                elif missing:
+                    bad("after the repaired build outputs %s do not exist" % missing, clause="converges")
+                if not failed and not notrun:
+                    must = set()
+            else:
+                if failed or log:
+                    bad("not a null build: %s executed=%s (nothing changed since the previous build)" % (out, log), clause="converges", repaired=True)
+    # the final state equals a clean build of the same sources
+    got = snapshot(d)
+    setup(clean)
+    for c in desc.cmds:
+        shutil.copyfile(os.path.join(d, c["src"]), os.path.join(clean, c["src"]))
+    st["label"] = "reference clean build"
+    cfailed, clog, cout = client.build(clean, 2, "-", verb="build")
+    if cfailed or sorted(clog) != sorted(names):
+        bad("reference clean build did not run every command once and succeed (%s log=%s)" % (cout, clog), clause="reference")
+    elif got != snapshot(clean):
+        want = snapshot(clean)
+        diff = sorted(k for k in set(got) | set(want) if got.get(k) != want.get(k))
+        bad("after the repair the outputs differ from a clean build of the same sources: %s" % diff, clause="converges", files=diff)
+    client.drop(d)
+    shutil.rmtree(d, ignore_errors=True)
+    shutil.rmtree(clean, ignore_errors=True)
+    return fails, stats
+
+
 class Check(PropertyCheck):
     prop = "C10"
     module = "LLBuild.Props.C10All"
@@ -1049,7 +1277,10 @@ class Check(PropertyCheck):
                 rp = json.load(open(ctx.replay_path))
                 inp = rp.get("failure", {}).get("input", {})
                 dj = inp.get("desc") if isinstance(inp, dict) else None
-                if dj and dj.get("ext"):
+                if dj and dj.get("cancel"):
+                    self.cancel_replay = CancelDesc(None, dj["idx"], fixed=dj)
+                    descs.append(None)
+                elif dj and dj.get("ext"):
                     descs.append(DescX(None, dj["idx"], fixed=dj))
                     only = (inp.get("jobs"), inp.get("client"))
                 elif dj:
@@ -1078,6 +1309,14 @@ class Check(PropertyCheck):
             descs += [Desc(ctx.rng, i) for i in range(n)]
             descs += fixed_descx()
             descs += [DescX(ctx.rng, 3000 + i) for i in range(nx)]
+        if getattr(self, "cancel_replay", None) is not None:
+            cdescs, descs = [self.cancel_replay], []
+            self.cancel_replay = None
+        elif getattr(ctx, "replay_path", None) and descs:
+            cdescs = []
+        else:
+            krng = C.Rng(ctx.rng.next(), "C10k")        # own stream, drawn after everything above: the older streams are what they were
+            cdescs = [CancelDesc(krng, i) for i in range(160 if ctx.thorough else 32)]
         jobs_list = [1, 4]
         work = []
         for d in descs:
@@ -1153,7 +1392,51 @@ class Check(PropertyCheck):
             res.distinct_nontrivial += tot["with_downstream"]
             res.distribution[key] = tot
         self.clientx_part(ctx, res, [r[1].get("clientx") for r in results if r and r[1] and r[1].get("clientx")])
+        self.cancel_part(ctx, res, base, cdescs)
         shutil.rmtree(base, ignore_errors=True)
+
+    def cancel_part(self, ctx, res, base, cdescs):
+        """histories of a long-lived client with a cancelling policy (stream `cancel_histories`)"""
+        out = [None] * len(cdescs)
+        lock, pos = threading.Lock(), [0]
+
+        def worker():
+            cl = PolicySession(ctx.exe[("vc10", "plain")])
+            while True:
+                with lock:
+                    i = pos[0]
+                    pos[0] += 1
+                if i >= len(cdescs):
+                    break
+                try:
+                    out[i] = run_cancel_hist(cl, base, cdescs[i])
+                except Exception as e:
+                    out[i] = ([{"what": "cancel history crashed: %r" % e, "route": "e2e", "stream": "cancel-history", "clause": "harness",
+                                "input": {"desc": cdescs[i].to_json(), "jobs": 2, "client": "session+policy"}}], {})
+                    try:
+                        cl.p.kill()
+                    except Exception:
+                        pass
+                    cl = PolicySession(ctx.exe[("vc10", "plain")])
+            cl.close()
+        ts = [threading.Thread(target=worker) for _ in range(6)]
+        [t.start() for t in ts]
+        [t.join() for t in ts]
+        tot = {"histories": len(cdescs), "builds": 0, "failing_builds": 0, "cancelled_builds": 0, "repaired_builds": 0,
+               "told_then_cancelled_candidates": 0, "policies": {}}
+        for r in out:
+            if not r:
+                continue
+            res.oracle_failures += r[0]
+            for k, v in r[1].items():
+                if k == "policies":
+                    for a, b in v.items():
+                        tot["policies"][a] = tot["policies"].get(a, 0) + b
+                else:
+                    tot[k] += v
+        res.evaluations += tot["builds"]
+        res.distinct_nontrivial += tot["cancelled_builds"]
+        res.distribution["cancel_histories"] = tot
 
     def clientx_part(self, ctx, res, cxs):
         """every build of the keep-going / session histories: value kinds and dependency lists in build.db vs the extended client model"""
@@ -1222,7 +1505,14 @@ class Check(PropertyCheck):
                     "every produced file node (ExistingInput / FailedInput), and every command's recorded dependency list, are compared with the "
                     "clean evaluation of the extended client model (driver mode c08xclean over Model/BuildSystemClientX.lean: ok / failed / skipped, "
                     "no discovered keys); builds through the llbuild tool (it cancels at the first failure and keeps older records, F48) and states "
-                    "with a missing input of an allow-missing-inputs command are outside the model and counted."
+                    "with a missing input of an allow-missing-inputs command are outside the model and counted. CANCEL_HISTORIES (own RNG stream): a "
+                    "long-lived client (ONE BuildSystem per history, resetForBuild between builds) on 2 lanes with a cancelling policy - give up at the "
+                    "N-th failed command, or cancel when a given command has finished - over chain / diamond / generated descriptions in which a command "
+                    "has one producer that fails fast (exit status or missing source) and one that is slow: the command is told FailedInput / MissingInput "
+                    "and the build is cancelled before it executes; then the cause is removed and the same client builds 1-3 times. Judged (schedule-"
+                    "independent facts only): failing builds report failure and run nothing downstream; the first build after the repair reports success, "
+                    "executes every command that failed / was downstream of a failure / never succeeded, leaves every output; later builds are null; the "
+                    "final outputs equal a clean build's."
                     % ("-4" if ctx.thorough else "", "-3" if ctx.thorough else ""))
 
     def search(self, ctx, res, why):
